@@ -35,6 +35,12 @@ WakeUp(n, d, slot, bi, now) ==
 
 Stamp(t, tps) == (t \div tps) * tps             \* PrepareHeader: whole seconds (t >= 0: never before the parent)
 
+\* ---- which term's deputies all of the above work with ----
+\* The snapshot block at height k*TD names term k; it takes charge ID blocks later: heights k*TD+ID+1 .. (k+1)*TD+ID.
+\* During the interim heights k*TD+1 .. k*TD+ID the next term is known already but the old one still signs.
+TermInCharge(h, TD, ID) == IF h <= TD + ID THEN 0 ELSE (h - ID - 1) \div TD
+FirstOfTerm(h, TD, ID) == h = 1 \/ (h > TD + ID /\ (h - ID - 1) % TD = 0)
+
 \* ---- the declarative schedule of the property ----
 Start(n, special, pr) == IF special THEN 0 ELSE (pr + 1) % n
 Entitled(n, special, pr, slot, t) == (Start(n, special, pr) + (t \div slot)) % n
